@@ -586,6 +586,7 @@ def run(ctx):
         "hit_prediction_agreement": "%d/%d requests" % (agree, total_pred),
         "concurrent_histories": conc_total + conc_dedup, "concurrent_histories_fully_scheduled": conc_total,
         "concurrent_histories_with_subgraph_single_flight": conc_dedup, "concurrent_behaviours_total": n_conc_total,
+        "concurrent_fetches_answered_from_the_other_requests_exchange": stats.get("shared_loads", 0),
         "concurrent_schedules_realised_exactly": conc_sched_realised,
         "concurrent_hit_prediction_agreement": "%d/%d histories" % (conc_agree, conc_total),
         "hit_prediction_mismatches_not_involving_status_300_or_null_entity": unexplained[:10],
